@@ -183,6 +183,7 @@ func narrowTable(c *core.Ctx, fn *ssa.Function, maxLen int) (rs rows, runs int, 
 		multiset string
 		kind     int64
 		withQ    bool
+		req      string
 	}
 	winners := map[outcomeKey]map[string]bool{}
 	// every (field kind, qualifier argument, candidate list) is an independent interpretation: run them on all cores,
@@ -192,7 +193,10 @@ func narrowTable(c *core.Ctx, fn *ssa.Function, maxLen int) (rs rows, runs int, 
 	sem := make(chan struct{}, runtime.NumCPU())
 	firstUndecided := ""
 	for _, fieldKind := range []int64{23, 22} { // slice, pointer
-		for _, withQ := range []bool{true, false} {
+		// the qualifier argument: absent, a named qualifier, or the bare argument (which requests the empty qualifier -
+		// declared by a component whose Qualifier() answers "", not by one that declares none)
+		for _, req := range []string{"q", "", "-"} {
+			withQ := req != "-"
 			for _, lst := range lists {
 				wg.Add(1)
 				sem <- struct{}{}
@@ -246,7 +250,7 @@ func narrowTable(c *core.Ctx, fn *ssa.Function, maxLen int) (rs rows, runs int, 
 								panic(&absint.Undecided{Msg: "TagArg.Find with a key other than the qualifier argument: " + absint.Show(a[1])})
 							}
 							if withQ {
-								return absint.Tuple{&absint.List{Elems: []absint.Value{absint.Str("q")}}, absint.Bool(true)}
+								return absint.Tuple{&absint.List{Elems: []absint.Value{absint.Str(req)}}, absint.Bool(true)}
 							}
 							return absint.Tuple{&absint.List{IsNil: true}, absint.Bool(false)}
 						}
@@ -262,7 +266,7 @@ func narrowTable(c *core.Ctx, fn *ssa.Function, maxLen int) (rs rows, runs int, 
 								return absint.Bool(true)
 							}
 							for _, w := range wants.Elems {
-								if w == absint.Value(absint.Str("q")) {
+								if w == absint.Value(absint.Str(req)) {
 									return absint.Bool(true)
 								}
 							}
@@ -296,7 +300,14 @@ func narrowTable(c *core.Ctx, fn *ssa.Function, maxLen int) (rs rows, runs int, 
 							}
 							return false, false
 						}
-						t.invoke[wqM] = func(ip *absint.Interp, a []absint.Value) absint.Value { return a[0].(*absint.Tok).Attr["qual"] }
+						t.invoke[wqM] = func(ip *absint.Interp, a []absint.Value) absint.Value {
+							// a candidate of kind "q" declares the requested qualifier, whatever that is
+							if q := a[0].(*absint.Tok).Attr["qual"]; q == absint.Value(absint.Str("q")) && withQ {
+								return absint.Str(req)
+							} else {
+								return q
+							}
+						}
 						t.invokeN["Kind"] = func(ip *absint.Interp, a []absint.Value) absint.Value { return absint.Int(fieldKind) }
 						return t, narrowArgs(c, fn, n, in), nil
 					}
@@ -305,7 +316,7 @@ func narrowTable(c *core.Ctx, fn *ssa.Function, maxLen int) (rs rows, runs int, 
 						for _, ki := range lst {
 							names = append(names, kinds[ki].String())
 						}
-						w := fmt.Sprintf("field=%s qualifierArg=%v candidates=[%s] => %s", map[int64]string{23: "slice", 22: "single"}[fieldKind], withQ, strings.Join(names, " "), showOutcome(out))
+						w := fmt.Sprintf("field=%s qualifierArg=%v(%q) candidates=[%s] => %s", map[int64]string{23: "slice", 22: "single"}[fieldKind], withQ, req, strings.Join(names, " "), showOutcome(out))
 						rs.hit("no-panic")
 						if out.Panic != nil {
 							rs.fail("no-panic", w)
@@ -421,7 +432,7 @@ func narrowTable(c *core.Ctx, fn *ssa.Function, maxLen int) (rs rows, runs int, 
 						if determined != "" {
 							sorted := append([]string(nil), names...)
 							sort.Strings(sorted)
-							key := outcomeKey{strings.Join(sorted, " "), fieldKind, withQ}
+							key := outcomeKey{strings.Join(sorted, " "), fieldKind, withQ, req}
 							if winners[key] == nil {
 								winners[key] = map[string]bool{}
 							}
